@@ -65,6 +65,7 @@ class C19(ProgramProperty):
         alnum = sorted({ord(ch) for u in uris for ch in u if ch.isalnum()})
         for k, order in enumerate(orders):
             steps.append({"op": "discover", "dst": 10 + k, "src": src, "uris": [cps(u) for u in order],
+                          "container": ["list", "generator", "tuple"][k],
                           "delims": [cps(d) for d in delims], "cutoff": cutoff, "metaprefix": cps(meta), "alnum": alnum})
             steps += [q(10 + k, "records"), q(10 + k, "delimiter")]
         if with_conv:
